@@ -129,6 +129,12 @@ def check(elements, pos, cell, ctx, st, radii, nonmetals, what, metamorphic_rng=
         if g2 != gs:
             ctx.fail("%s: bonding changed after shifting the structure by %s and wrapping: %s vs %s" % (what, np.round(shift, 4).tolist(), sorted(g2 ^ gs)[:4], ""), witness=w)
         st.count("shift_relations_checked")
+        # the same relation on the SAME object, moved in place after it has been searched once (and searched twice in a row)
+        g_again = set(tuple(sorted(int(v) for v in r)) for r in np.asarray(detect(a)).reshape(-1, 2))
+        a.positions = G.wrap(cell, np.asarray(a.positions, float) + shift)
+        g_moved = set(tuple(sorted(int(v) for v in r)) for r in np.asarray(detect(a)).reshape(-1, 2))
+        if g_again != gs or g_moved != gs:
+            ctx.fail("%s: bonding of one and the same object changes between calls (repeat: %s, after moving it in place: %s)" % (what, sorted(g_again ^ gs)[:3], sorted(g_moved ^ gs)[:3]), witness=w)
     if metamorphic_rng is not None:
         perm = metamorphic_rng.permutation(len(elements))
         g3 = set(tuple(sorted(int(perm[v]) for v in r)) for r in np.asarray(detect(make_atoms([elements[i] for i in perm], pos[perm], cell))).reshape(-1, 2))
